@@ -995,6 +995,10 @@ func (runInfo *runInfoStruct) runChanStmt(stmt *ast.ChanStmt) {
 		runInfo.expr = stmt.OkExpr
 		runInfo.invokeLetExpr()
 		// TODO: ok to ignore error?
+		if runInfo.err == ErrInterrupt {
+			// (not an interruption: nothing may swallow that one)
+			return
+		}
 	}
 
 	if ok {
